@@ -234,6 +234,8 @@ def main(ctx: Ctx) -> int:
     for nm in sorted(names)[: (150 if ctx.quick else 100000)]:
         if nm not in pseudo:
             add("default", nm, [], origin="bundled")
+    for t0 in list(traces[:80]):      # second pass: the first names again at the end of the run (same process, other tables used in between)
+        add(t0["table"], t0["text"], [{"sym": "".join(tk["sym"]), "cnt": tk["cnt"], "kind": tk["kind"]} for tk in t0["toks"]], garbage=t0["garbage"], origin="again")
     v = validate_traces(ctx, "Trace_SpeciesName.tla", "Trace_SpeciesName.cfg", traces, "names", chunk=1500,
                         extra_top={"tables": tables_json, "mass": [[chars(k), a] for k, a in sorted(mass_table().items())]}, timeout=3000)
     cov["traces_validated_against_impl"] = len(traces)
